@@ -308,8 +308,13 @@ class Extractor(Translator):
             self.rule("new[]->malloc")
             return X("cast", cn + " *", X("call", "verif_malloc", [X("bin", "*", n, X("sizeof", cn))]), ty=Ty("ptr", to=T))
         if e.get("isPlacement"):
-            place = self.rv(inner[0])
-            init = inner[1] if len(inner) > 1 else None
+            # children: placement argument(s) ..., then the initialiser (an expression of the allocated type), if any
+            init = None
+            if len(inner) > 1 and inner[-1].get("kind") in ("CXXConstructExpr", "InitListExpr", "CXXTemporaryObjectExpr", "ImplicitValueInitExpr", "CXXScalarValueInitExpr", "ExprWithCleanups", "ImplicitCastExpr", "IntegerLiteral", "FloatingLiteral", "CXXFunctionalCastExpr", "DeclRefExpr"):
+                init = inner[-1]
+            # clang orders the children: [array size], [initialiser], placement arguments
+            init = inner[0] if len(inner) > 1 else None
+            place = self.rv(inner[-1])
             self.rule("placement-new")
             o = X("var", "__o", ty=Ty("ptr", to=T))
             st = [X("decl", Ty("ptr", to=T), "__o", X("cast", cn + " *", place))]
